@@ -7,6 +7,11 @@
 (* constructors allocate, d[c] = v / del d[c] / d.update mutate their target in place, everything *)
 (* else allocates its result and leaves every existing object alone.  hist records the calls;     *)
 (* model-checking configurations hide it with a VIEW, generator configurations print it.          *)
+(* Augmented assignment (e += record, e += table, e += None) is a call too: on records it gives   *)
+(* the NAME e the table e + x and says nothing about any other table - in particular not about    *)
+(* the tables e was made from (copy, d - c, projection, d(c = f), rename, do ...).  NextDerived    *)
+(* is the directed history form for exactly that: a table, a table made from it, then one of the  *)
+(* two changed in place or grown, all registers observed.                                          *)
 EXTENDS DictableOps, Json
 CONSTANTS MaxDepth, MaxRowsC
 
@@ -43,25 +48,58 @@ Slice    == \E r \in Live, sl \in {"first", "tail", "even", "last", "none", "rev
 Mask     == \E r \in Live, m \in {"all", "nothing", "odd"} : Alloc(NextReg(r), MaskT(T(r), m), [op |-> "Mask", r |-> r, rd |-> NextReg(r), m |-> m, mask |-> MaskOf(NR(T(r)), m)])
 Take     == \E r \in Live, pos \in {<<0>>, <<-1, 0>>, <<1, 1>>} : Alloc(NextReg(r), TakeT(T(r), pos), [op |-> "Take", r |-> r, rd |-> NextReg(r), pos |-> pos])
 Project  == \E r \in Live, cs \in {<<"a">>, <<"b", "a">>} : Alloc(NextReg(r), ProjectT(T(r), cs), [op |-> "Project", r |-> r, rd |-> NextReg(r), cs |-> cs])
-Derive   == \E r \in Live, cf \in {<<"c", "copy_a">>, <<"a", "a_or_2">>, <<"b", "const_x">>, <<"c", "copy_key">>} :
+Derive   == \E r \in Live, cf \in {<<"c", "copy_a">>, <<"a", "a_or_2">>, <<"b", "const_x">>, <<"c", "copy_key">>, <<"c", "a_plus_b">>, <<"a", "a_plus_b">>} :
                (cf[2] = "copy_key" => HasCol(T(r), "key")) /\      \* without such a column the library hands f its hidden key = <new column name>
                Alloc(NextReg(r), DeriveT(T(r), cf[1], cf[2]), [op |-> "Derive", r |-> r, rd |-> NextReg(r), c |-> cf[1], f |-> cf[2]])
-Do       == \E r \in Live, cs \in {<<>>, <<"a">>} : Range(cs) \subseteq ColSet(T(r)) /\ Alloc(NextReg(r), DoT(T(r), cs), [op |-> "Do", r |-> r, rd |-> NextReg(r), cs |-> cs])
+\* d(c = value) with a value that is not a function: column assignment on a new table (broadcast, ValueError on a length that does not fit)
+DeriveConst == \E r \in Live, c \in {"a", "c"} : \E a \in {<<"s", None>>, <<"s", V2>>, <<"l", <<V1, V2>>>>, <<"l", <<>>>>} :
+               Alloc(NextReg(r), SetColT(T(r), c, a), [op |-> "DeriveConst", r |-> r, rd |-> NextReg(r), c |-> c, arg |-> a])
+\* d(c = f, c2 = g) with g reading the fresh column c (both keyword orders are rendered)
+DerivePair == \E r \in Live, f \in {"copy_a", "const_x"}, c2 \in {"b", "d"} : ~HasCol(T(r), "c") /\
+               Alloc(NextReg(r), DerivePairT(T(r), "c", f, c2, "copy_c"), [op |-> "DerivePair", r |-> r, rd |-> NextReg(r), c |-> "c", f |-> f, c2 |-> c2, g |-> "copy_c"])
+\* per-column transforms: one function or a list of functions, of the cell alone or with further parameters naming columns
+DoMenu == {<<<<"none0">>, <<>>>>, <<<<"none0">>, <<"a">>>>, <<<<>>, <<"a">>>>,
+           <<<<"add_a">>, <<"a", "b">>>>, <<<<"add_a">>, <<"b", "a">>>>, <<<<"add_a", "add_a">>, <<"a">>>>, <<<<"none0", "add_a">>, <<"b", "a", "b">>>>,
+           <<<<"or_b">>, <<"b", "a">>>>, <<<<"or_b", "none0">>, <<"a", "b">>>>, <<<<"add_a", "or_b">>, <<"c", "a">>>>}
+Do       == \E r \in Live, m \in DoMenu : Range(m[2]) \subseteq ColSet(T(r)) /\ (m[2] = <<>> => DoCellOnly(m[1])) /\
+               Alloc(NextReg(r), DoT(T(r), m[1], m[2]), [op |-> "Do", r |-> r, rd |-> NextReg(r), fs |-> m[1], cs |-> m[2]])
 Rename   == \E r \in Live : ~HasCol(T(r), "d") /\ Alloc(NextReg(r), RenameT(T(r), "a", "d"), [op |-> "Rename", r |-> r, rd |-> NextReg(r), c |-> "a", c2 |-> "d"])
 Swap     == \E r \in Live : (HasCol(T(r), "a") /\ HasCol(T(r), "b")) /\ Alloc(NextReg(r), SwapT(T(r), "a", "b"), [op |-> "Swap", r |-> r, rd |-> NextReg(r), c |-> "a", c2 |-> "b"])
 Concat   == \E ra \in Live, rb \in Live : Alloc("r3", ConcatT(T(ra), T(rb)), [op |-> "Concat", ra |-> ra, rb |-> rb, rd |-> "r3"])
 AddRec   == \E r \in Live, rec \in {<<<<"a", V2>>>>, <<<<"c", VX>>, <<"a", None>>>>} :
                Alloc(NextReg(r), ConcatT(T(r), RecordT(rec)), [op |-> "AddRecord", r |-> r, rd |-> NextReg(r), rec |-> rec])
 Copy     == \E r \in Live : Alloc(NextReg(r), Ok(T(r)), [op |-> "Copy", r |-> r, rd |-> NextReg(r)])
+\* d - c / d - [c, ...]: column deletion that returns a new table (absent names ignored)
+Minus    == \E r \in Live, cs \in {<<"b">>, <<"a", "b">>, <<"d">>} : Alloc(NextReg(r), MinusColsT(T(r), cs), [op |-> "Minus", r |-> r, rd |-> NextReg(r), cs |-> cs])
 \* filters without any condition return the whole table - as a new object (inc() / exc(), see C06)
 NoFilter == \E r \in Live, f \in {"inc", "exc"} : Alloc(NextReg(r), Ok(T(r)), [op |-> "NoFilter", r |-> r, rd |-> NextReg(r), f |-> f])
 \* named deviations: these two calls return their operand itself, not a new table
 AddNone  == \E r \in Live : Alias(NextReg(r), r, [op |-> "AddNone", r |-> r, rd |-> NextReg(r)])
 ConcatOne == \E r \in Live : Alias(NextReg(r), r, [op |-> "ConcatOne", r |-> r, rd |-> NextReg(r)])
+\* augmented assignment e += x.  The name e afterwards holds e + x; every OTHER table is what it was.  Whether e is a new object
+\* or the old one grown in place cannot be told apart unless a second name holds the very same object (only d + None and
+\* concat(d) make such names); the statement does not say which (a Python list of records would grow in place), so the
+\* calls are taken for names that are the only one for their object.
+SoleName(r) == \A s \in Regs \ {r} : reg[s] # reg[r]
+IAddRec  == \E r \in Live, rec \in {<<<<"a", V2>>>>, <<<<"c", VX>>, <<"a", None>>>>} : SoleName(r) /\
+               Alloc(r, ConcatT(T(r), RecordT(rec)), [op |-> "IAddRecord", r |-> r, rd |-> r, rec |-> rec])
+IAddTab  == \E r \in Live, rb \in Live : SoleName(r) /\
+               Alloc(r, ConcatT(T(r), T(rb)), [op |-> "IAdd", r |-> r, rb |-> rb, rd |-> r])       \* rb = r: e += e
+IAddNone == \E r \in Live : Alias(r, r, [op |-> "IAddNone", r |-> r, rd |-> r])                      \* e += None, e += 0: nothing happens
 
 Init == heap = <<>> /\ reg = [r \in Regs |-> 0] /\ out = "ok" /\ hist = <<>>
-Next == New \/ SetCol \/ DelCol \/ Update \/ Slice \/ Mask \/ Take \/ Project \/ Derive \/ Do \/ Rename \/ Swap \/ Concat \/ AddRec \/ Copy \/ NoFilter \/ AddNone \/ ConcatOne
+Makers   == Slice \/ Mask \/ Take \/ Project \/ Derive \/ DeriveConst \/ DerivePair \/ Do \/ Rename \/ Swap \/ Concat \/ AddRec \/ Copy \/ Minus \/ NoFilter \/ AddNone \/ ConcatOne
+Changers == SetCol \/ DelCol \/ Update \/ IAddRec \/ IAddTab \/ IAddNone
+Next == Len(hist) < MaxDepth /\ (New \/ Makers \/ Changers)       \* exhaustive runs: no successors are built beyond the bound
+NextSim == New \/ Makers \/ Changers                               \* simulation: the depth of the run is the bound
 Bound == Len(hist) <= MaxDepth /\ \A o \in 1..Len(heap) : Len(heap[o].rows) <= MaxRowsC
+\* the directed history form: one table in r1, a table made from it, then any of the live tables changed in place or grown
+DerivedSeeds == {[kind |-> "cols", cols |-> <<"a", "b">>, args |-> <<<<"l", <<V1, V2>>>>, <<"l", <<VX, None>>>>>>],
+                 [kind |-> "cols", cols |-> <<"key", "a">>, args |-> <<<<"l", <<VX, V2>>>>, <<"l", <<V1, None>>>>>>],
+                 [kind |-> "rows", hdrs |-> <<"a", "c">>, rows |-> <<<<V1, V2>>, <<None, VX>>>>]}
+NextDerived == \/ hist = <<>> /\ \E s \in DerivedSeeds : Alloc("r1", Construct(s), [op |-> "New", rd |-> "r1", seed |-> s])
+               \/ Len(hist) = 1 /\ Makers
+               \/ Len(hist) = 2 /\ Changers
 View == <<heap, reg, out>>
 
 \* ---- properties -------------------------------------------------------------------------------
